@@ -38,6 +38,7 @@ type ContentPlan struct {
 	// MinTraces: every tx has at least this many traces (trace mode)
 	MinTraces int `json:"min_traces,omitempty"`
 	MinTx     int `json:"min_tx,omitempty"`
+	MinLogs   int `json:"min_logs,omitempty"`
 	// PoolTxPct: percent of transactions whose from/to come from the address pool
 	PoolTxPct int `json:"pool_tx_pct,omitempty"`
 	// Seeded: blocks 1..UpTo each carry one log of Event per pool address
